@@ -64,6 +64,10 @@ pub struct Tap {
     ops: u64,
     fail_at: Option<u64>,
     broken: bool,
+    /// the injected failure breaks only the sending direction (a half-open connection): receives keep
+    /// working, every send-side operation fails from the fault point on
+    send_only: bool,
+    send_broken: bool,
     /// rewrite the minor version of an outgoing Connect2 (lets the real client, which always asks
     /// for the latest version, negotiate an older one)
     rewrite_minor: Option<u32>,
@@ -78,6 +82,8 @@ impl Tap {
             ops: 0,
             fail_at: None,
             broken: false,
+            send_only: false,
+            send_broken: false,
             rewrite_minor: None,
         }
     }
@@ -90,6 +96,12 @@ impl Tap {
     /// Fail the k-th (1-based) completed transport operation of this end and everything after it.
     pub fn fail_at(mut self, k: Option<u64>) -> Self {
         self.fail_at = k;
+        self
+    }
+
+    /// The failure injected by `fail_at` affects only the sending direction.
+    pub fn send_only(mut self, yes: bool) -> Self {
+        self.send_only = yes;
         self
     }
 
@@ -112,7 +124,17 @@ impl Tap {
         if let Some(log) = &self.log {
             *log.borrow_mut().ops.entry(self.label.clone()).or_insert(0) += 1;
         }
-        if self.fail_at == Some(self.ops) {
+        if self.send_broken && !matches!(op, Op::Recv) {
+            self.rec(TapEvent::Failed(op, TErr::Injected));
+            return Err(TErr::Injected);
+        }
+        if self.send_only && !self.send_broken && self.fail_at.is_some_and(|k| self.ops >= k) && !matches!(op, Op::Recv) {
+            // half-open: the first send-side operation at or after the fault point fails, and all later ones
+            self.send_broken = true;
+            self.rec(TapEvent::Failed(op, TErr::Injected));
+            return Err(TErr::Injected);
+        }
+        if !self.send_only && self.fail_at == Some(self.ops) {
             self.broken = true;
             self.inner = None; // the peer observes a disconnect
             self.rec(TapEvent::Failed(op, TErr::Injected));
